@@ -213,6 +213,37 @@ def empty_gaf_case(ck, rng, tmp):
                          {"command": cmd, "plain": a, "bgzf": b, "gfa": g.text()[:1500]})
 
 
+def sort_bgzip_index_case(ck, rng, tmp):
+    """`sort --bgzip`: the .gsi written next to a multi-block BGZF output must resolve to the same records (first and last record
+    of every contig) as the .gsi of the plain output of the same sort - with the last record of the first contig placed across a
+    BGZF block boundary, where a virtual offset is not a byte count"""
+    import p_sort
+    g = p_sort.bo_graph(rng)
+    adj = g.adjacency()
+    lines = []
+    for k in range(900):
+        w = gen.walk(rng, g, adj, maxsteps=5)
+        if len({g.seg(nm)["SN"] for nm, o in w if g.seg(nm)["SR"] == 0}) > 1:
+            continue
+        lines.append(gen.walk_record(rng, g, w, "r%d" % k, canonical=False) + "\tzz:Z:" + "pad" * rng.randint(20, 50))
+    gfa_text = g.text(with_seq=False)
+    runner = p_sort.SortRun(tmp)
+    lines = p_sort.straddle_contig_end(ck, runner, gfa_text, lines, 0, None)
+    res = {}
+    for kind, bg_out in (("plain", 0), ("bgzip", 1)):
+        obs = runner.run(gfa_text, lines, 0, bg_out, None)
+        if obs.get("outcome") != "ok":
+            res[kind] = "fails:%s" % obs.get("exc", obs.get("outcome"))
+        else:
+            ords, bad = p_sort.gsi_ordinals(obs)
+            res[kind] = bad[0] if bad else sorted(ords)
+    ck.count("sort-bgzip-index")
+    ck.case({"sort-bgzip-index": len(lines)}, True)
+    if res["plain"] != res["bgzip"]:
+        ck.violation("the .gsi of `sort --bgzip` does not resolve to the same first/last records per contig as the .gsi of the plain output",
+                     {"plain": res["plain"], "bgzip": res["bgzip"], "records": len(lines), "gfa": gfa_text[:1500]})
+
+
 def count_bgzf_blocks(path):
     offs, _ = gen.record_offsets(path)
     return len({o >> 16 for o in offs})
@@ -348,6 +379,7 @@ def main():
         for _ in range(1 if quick else 4):
             big_selection_case(ck, rng, tmp)
         empty_gaf_case(ck, rng, tmp)
+        sort_bgzip_index_case(ck, rng, tmp)
         # the command-line layer every sub-command is reached through (argparse tables, validate, dispatch, exit statuses):
         # Model/Cli.lean, theorems Props/Cli.lean (Audit/C17_extra.lean), compared with the real gaftools.__main__.main
         import p_cli
